@@ -525,7 +525,23 @@ def udpcl_run(params, obs):
         for length in params.get('sends', []):
             th._bus_call(sim, 'U', agent, path, type(agent).send_bundle_data, 'send_bundle_data',
                          (dbus.ByteArray(b'\x9f' + bytes(length) + b'\xff'), dbus.Dictionary({'address': '10.0.0.9', 'port': dbus.Int32(4556)}, signature='sv')))
+        # and to a destination the kernel refuses every datagram for (the limited broadcast address): whatever the agent makes of it, no
+        # transfer gets more than one finished signal
+        for length in params.get('sends', [])[:1]:
+            th._bus_call(sim, 'U', agent, path, type(agent).send_bundle_data, 'send_bundle_data',
+                         (dbus.ByteArray(b'\x9f' + bytes(length) + b'\xff'), dbus.Dictionary({'address': '255.255.255.255', 'port': dbus.Int32(4556)}, signature='sv')))
+            obs['udpcl_refused_destinations'] = obs.get('udpcl_refused_destinations', 0) + 1
         sim.run(200000)
+        del sim.world.callback_errors[:]
+        fin_count = {}
+        for ev in sim.hist.events:
+            if ev['kind'] == 'signal' and ev['member'] == 'send_bundle_finished' and ev.get('exported', True):
+                fin_count[str(ev['args'][0])] = fin_count.get(str(ev['args'][0]), 0) + 1
+        for tid, num in sorted(fin_count.items()):
+            if num > 1:
+                problems.append(('udp-finished', 'udpcl: transfer %s got %d send_bundle_finished signals %s' % (
+                    tid, num, [str(ev['args'][2]) for ev in sim.hist.events if ev['kind'] == 'signal' and ev['member'] == 'send_bundle_finished'
+                               and str(ev['args'][0]) == tid]), 'send_bundle_finished'))
         queue = th._bus_call(sim, 'U', agent, path, type(agent).recv_bundle_get_queue, 'recv_bundle_get_queue', ())
         # consistency of the receive view: ids announced as finished are distinct, the queue lists exactly those not yet popped,
         # every pop returns one of the bundles that arrived, each exactly once
